@@ -209,29 +209,34 @@ class SemantivaOrchestrator(ABC):
                 **run_space_kwargs,
             )
 
-        # NOW instantiate nodes (this may emit 'instantiate' events)
-        nodes, node_defs = self._instantiate_nodes(resolved_spec, logger)
-        self._last_nodes = list(nodes)
-
         trace_active = (
             trace is not None and run_id is not None and pipeline_id is not None
         )
         trace_driver = cast(TraceDriver, trace) if trace_active else None
         run_token = cast(str, run_id) if trace_active else ""
         pipeline_token = cast(str, pipeline_id) if trace_active else ""
-        env_pins_static = self._collect_env_pins() if trace_driver is not None else {}
-        if trace_driver is not None:
-            try:
-                from semantiva.registry.bootstrap import current_profile
-
-                env_pins_static = dict(env_pins_static)
-                env_pins_static["registry.fingerprint"] = (
-                    current_profile().fingerprint()
-                )
-            except Exception:
-                pass
 
         try:
+            # NOW instantiate nodes (this may emit 'instantiate' events). This happens
+            # inside the protected region: pipeline_start has already been written, so
+            # a construction failure must still close the trace with pipeline_end.
+            nodes, node_defs = self._instantiate_nodes(resolved_spec, logger)
+            self._last_nodes = list(nodes)
+
+            env_pins_static = (
+                self._collect_env_pins() if trace_driver is not None else {}
+            )
+            if trace_driver is not None:
+                try:
+                    from semantiva.registry.bootstrap import current_profile
+
+                    env_pins_static = dict(env_pins_static)
+                    env_pins_static["registry.fingerprint"] = (
+                        current_profile().fingerprint()
+                    )
+                except Exception:
+                    pass
+
             for index, node in enumerate(nodes):
                 node_def = node_defs[index]
                 node_id = node_uuids[index] if index < len(node_uuids) else ""
